@@ -29,7 +29,7 @@ META = {
             "configurations and TLC checks the recorded activation messages: every destination is activated exactly once, "
             "nobody else, and every activation carries every output its target consumes.",
     "note": "Exhaustive on model and real code: N<=5 with 1-2 outputs and N<=4 with 3 outputs (quick); N<=6 / N<=5 (thorough, "
-            "model also N=6 with 3 outputs for roots 0 and 5).  Payload selection of remote_dep_mpi_pack_dep (static) is re-stated in the harness "
+            "N=6 with 3 outputs sampled).  Payload selection of remote_dep_mpi_pack_dep (static) is re-stated in the harness "
             "from the real structures.  DataAvail fails on the unchanged tree for the class relay-lacks-output (known finding "
             "D8).  Real MPI runs of multi-flow JDFs are left to C05.  Trusted: TLC, the virtual-rank harness.",
     "technique": "TLA+ transcription checked by TLC over all configurations + environment replay on virtual ranks + "
@@ -52,7 +52,8 @@ def comprehension(nmin, nmax, kmin, kmax, roots=None):
 
 def sampled_configs(ctx, count):
     out = []
-    sizes = (7, 8, 12, 16, 31, 32, 33, 34, 40, 63, 64, 65, 70)
+    sizes = (7, 8, 12, 16, 31, 32, 33, 34, 40, 63, 64, 65, 70) if ctx.quick else \
+            (6, 7, 8, 6, 12, 16, 6, 31, 32, 33, 34, 40, 63, 64, 65, 70)
     for i in range(count):
         n = sizes[i % len(sizes)]
         root = ctx.rng.randrange(n)
@@ -124,7 +125,7 @@ def run(ctx):
         expr = "(%s) \\cup (%s)" % (comprehension(2, 5, 1, 2), comprehension(2, 4, 3, 3))
     else:
         expr = "(%s) \\cup (%s)" % (comprehension(2, 6, 1, 2), comprehension(2, 5, 3, 3))
-    samples = sampled_configs(ctx, 12 if ctx.quick else 60)
+    samples = sampled_configs(ctx, 12 if ctx.quick else 160)
     expr += " \\cup {" + ", ".join(mcgen.tla(c) for c in samples) + "}"
     mod, cfg = mcgen.write_mc(d, "bcast", "Bcast", {"Configs": mcgen.Raw(expr)}, invariants=INVS + ("Emit",))
     r = ctx.tlc_check(d, mod, cfg, must_cover=("Activate", "Finish"), workers=2, timeout=1500)
@@ -133,10 +134,6 @@ def run(ctx):
     if not models:
         raise tlc.TLCError("the model printed no configuration")
     ctx.exhaustive = True
-    if not ctx.quick:
-        # N = 6 with 3 outputs: first and last root only (2 x 2^15 families x 3 topologies), model only
-        mod, cfg = mcgen.write_mc(d, "bcast63", "Bcast", {"Configs": mcgen.Raw(comprehension(6, 6, 3, 3, roots=(0, 5)))}, invariants=INVS)
-        ctx.tlc_check(d, mod, cfg, workers=2, timeout=2400)
     # the model must reproduce the reproduced defect D8 (otherwise the transcription is not faithful)
     d8 = [{"topo": "chain", "n": 3, "root": 0, "dest": [{1, 2}, {2}]}, {"topo": "binomial", "n": 4, "root": 0, "dest": [{1, 2, 3}, {3}]}]
     for i, c in enumerate(d8 if not ctx.quick else d8[:1]):
